@@ -42,7 +42,8 @@ def run_phase(ctx, res, prop, n_quick=36, n_thorough=400):
             causes = [c for c in causes]
         # platforms: manager_ledger (HID), manager_sgx (TCP transport, SGX bootloader commands), manager_tcp (no PIN)
         plat = "sgx" if i % 3 == 1 else ("tcp" if (i % 9 == 2 and p["should"]) else "ledger")
-        ev, inf = procmgr.run_lifetime(ctx.scratch, "%s_%d" % (prop, i), p["should"], causes, v1, rng, plat=plat)
+        ev, inf = procmgr.run_lifetime(ctx.scratch, "%s_%d" % (prop, i), p["should"], causes, v1, rng, plat=plat,
+                                       variant=None if p["should"] else i)
         tid = len(traces) + 1
         traces.append({"id": "M%d" % tid, "v1": v1, "ev": ev})
         info["M%d" % tid] = inf
